@@ -33,7 +33,7 @@ func (c12) Plan(tier string) wk.Plan {
 	}
 	return wk.Plan{
 		Level: "exploration", Cases: n, Chunk: 10, Configs: cfgs, CaseBudget: 120, HangIsViolation: true,
-		Rule:          "case = one workload item repeated in a batch (parsing: 40 repetitions; pipelines: 6): (parse, 50%) every input class of C04 - in particular every way parsing stops before the end of input: syntax error inside an expression, trailing tokens (1, 2, many), unterminated string/comment, stray closing brackets, generate-time errors - through Generate of the value, float and bool generators and the bare parser, comments on/off; (pipelines, 50%) evaluations whose consumer stops a parallel (map/accept with sleeping closures, > 12 elements) or channel-fed (merge, multiUse) stage early - first, top, present, indexWhere, single, ~ - and every error path (failing element before/after the switch to parallel execution, failing consumer, try/catch around it, panicking host function), result consumed or dropped. After the batch the goroutine profile is compared with the baseline: a goroutine of parser2/iterator that survives two snapshots (poll window 5 s) is a leak. Non-trivial = batch that started goroutines (observed in the profile during or after the batch, or parse inputs that stop early); distinct by (config, item). The evidence reports leaked goroutines per repetition (slope) per signature.",
+		Rule:          "case = one workload item repeated in a batch (parsing: 40 repetitions; pipelines: 6): (parse, 50%) every input class of C04 - in particular every way parsing stops before the end of input: syntax error inside an expression, trailing tokens (1, 2, many), unterminated string/comment, stray closing brackets, generate-time errors - through Generate of the value, float and bool generators and the bare parser, comments on/off; (pipelines, 50%) evaluations whose consumer stops a parallel (map/accept with sleeping closures, > 12 elements) or channel-fed (merge, multiUse) stage early - first, top, present, indexWhere, single, ~ - and every error path (failing element before/after the switch to parallel execution, a source that fails from item K on for every K = 10..14 around the switch, failing consumer, try/catch around it, panicking host function), result consumed or dropped. After the batch the goroutine profile is compared with the baseline: a goroutine of parser2/iterator that survives two snapshots (poll window 5 s) is a leak. Non-trivial = batch that started goroutines (observed in the profile during or after the batch, or parse inputs that stop early); distinct by (config, item). The evidence reports leaked goroutines per repetition (slope) per signature.",
 		Floor:         100,
 		FloorCounters: map[string]int64{"snapshots": 200},
 		Assumptions:   []string{"'short grace period' is decided as: gone within a 5 s polling window; only goroutines present with the same id in two snapshots count", "parallel stages rely on the dependency's timing switch; the evidence counts batches in which worker goroutines were actually seen"},
@@ -86,6 +86,22 @@ func c12ParseInput(c *wk.Case) (string, string) {
 
 func c12Pipeline(c *wk.Case) (string, string) {
 	r := c.Rng
+	if (c.Index/2)%8 == 7 {
+		// a source in front of a parallel stage fails from item K on (or only at item K), K walking through the
+		// positions around the switch to workers (12 items): the consumer stops at the first error while
+		// workers may hold results or may never have been given an item
+		K := 10 + (c.Index/16)%5
+		switch r.IntN(4) {
+		case 0:
+			return fmt.Sprintf("numbers(40).number((i,n)->if n>=%d then failAt(n,n) else n).map(n->delay(tick(0,n),600)).reduce((a,b)->a+b)", K), fmt.Sprintf("par-source-fails-from-%d", K)
+		case 1:
+			return fmt.Sprintf("try numbers(60).iir(y->y,(y,l)->if y>=%d then failAt(y,y) else y+l*0).accept(n->delay(tick(0,n),600)>=0).size() catch 0", K), fmt.Sprintf("par-accept-source-fails-from-%d", K)
+		case 2:
+			return fmt.Sprintf("numbers(40).number((i,n)->if n=%d then failAt(n,n) else n).map(n->delay(tick(0,n),600)).sum()", K), fmt.Sprintf("par-source-fails-once-at-%d", K)
+		default:
+			return fmt.Sprintf("try numbers(40).combine((p,q)->if p>=%d then failAt(p,p) else p).map(n->delay(tick(0,n),600)).map(n->delay(n,300)).reduce((a,b)->a+b) catch 0", K), fmt.Sprintf("par-combine-source-fails-from-%d", K)
+		}
+	}
 	slowMap := "numbers(300).map(x->delay(tick(0,x),250))"
 	slowAcc := "numbers(300).accept(x->delay(tick(0,x),250)>=0)"
 	src := []string{slowMap, slowAcc, slowMap + ".map(y->tick(1,y))", "numbers(300).number((i,x)->x).map(x->delay(tick(0,x),250))"}[r.IntN(4)]
@@ -135,6 +151,9 @@ func c12Pipeline(c *wk.Case) (string, string) {
 		{"try numbers(2000000000).map(x->x.foo).merge([1,2,3],(a,b)->a<b).size() catch 0", "merge-source-fails-persistently"},
 		{"try [1,2,3].merge(numbers(2000000000).map(x->failAt(x,x)),(a,b)->a<b).size() catch 0", "merge-second-source-fails-persistently"},
 		{"try numbers(2000000000).map(x->x.foo).multiUse({u:l->l.size(),v:l->l.first()}).string() catch 0", "multiUse-source-fails-persistently"},
+		// the source of multiUse panics in a stage that has no panic barrier of its own
+		{"[func r(y) r(y)+1; try numbers(100).combine((p,q)->if p>5 then r(p) else p+q).multiUse({u:l->l.sum(),v:l->l.size()}).string() catch 0][0]", "multiUse-source-recursion-guard"},
+		{"try numbers(100).iir(y->y,(y,l)->hpanic2(y,7)+l*0).multiUse({u:l->l.sum(),v:l->l.size()}).string() catch 0", "multiUse-source-panics-iir"},
 		// misuse: the call is rejected after some of its goroutines may have been started
 		{"try numbers(10).multiUse({a:l->l.reduce((a,b)->a+b), b:3}) catch 0", "multiUse-rejected-not-a-function"},
 		{"try numbers(10).multiUse({a:l->l.sum(), b:l->l.size(), c:(x,y)->x}) catch 0", "multiUse-rejected-arity"},
